@@ -95,8 +95,8 @@ func connectPkt(id string, ver byte) []byte {
 type liveOut struct {
 	Inputs      int            `json:"inputs"`
 	Outcomes    map[string]int `json:"outcomes"`
-	HandlerLeak []string       `json:"handler_leak"`  // inputs after which the handler did not end although the connection was closed
-	RefFailures []string       `json:"ref_failures"`  // inputs after which the reference exchange failed
+	HandlerLeak []string       `json:"handler_leak"` // inputs after which the handler did not end although the connection was closed
+	RefFailures []string       `json:"ref_failures"` // inputs after which the reference exchange failed
 	Oversize    map[string]any `json:"oversize"`
 	RefRounds   int            `json:"ref_rounds"`
 	Classes     int            `json:"classes"`
